@@ -712,9 +712,10 @@ def run(ctx):
                             ctx.sample({"program": text, "goal": f"E({gname})", "param": pname, "method": "-sens" if meth == "a" else "-sens_diff",
                                         "sensitivity": R["sens"], "point": inst["point"],
                                         "exact_derivatives_n0..": [str(peval(pderiv(om["polys"][gi][n]), x0)) for n in range(om["N"] + 1)]})
+                bad_new = True
                 if bad is not None:
                     flag = "-sens" if meth == "a" else "-sens_diff"
-                    ctx.violation(f"sens-mismatch:{flag}:{text}:{gname}:{pname}",
+                    bad_new = ctx.violation(f"sens-mismatch:{flag}:{text}:{gname}:{pname}",
                                   {"program_text": text, "goal": gname, "param": pname, "method": flag, "n": bad[0], "point": inst["point"],
                                    "polar_value": bad[1], "exact_derivative": str(bad[2]), "exact_moment": str(bad[3]),
                                    "polar_sensitivity": R["sens"], "dep_vars": R.get("dep_vars"), "ext_rec_dict": R.get("ext_rec_dict"),
@@ -727,7 +728,7 @@ def run(ctx):
                         mk = (lambda tg, meth=meth, R=R, inst=inst, pname=pname: coq_instance(meth, R, inst, pname, tg))
                         mk("_t")
                         cases.append({"mk": mk, "meth": meth, "text": text, "goal": gname, "param": pname, "point": inst["point"],
-                                      "bad": bad, "R": R, "inst": inst})
+                                      "bad": bad, "bad_new": bad_new, "R": R, "inst": inst})
                     except Exception as e:  # noqa
                         stat["not-printable"] = stat.get("not-printable", 0) + 1
                 else:
@@ -762,7 +763,10 @@ def run(ctx):
             stat[key] = stat.get(key, 0) + 1
             if b[0]:
                 ctx.coverage["discharged"] += 1
-            elif cs["bad"] is None:
+            elif cs["bad"] is not None:
+                if not cs["bad_new"]:
+                    ctx.coverage["discharged"] += 1  # instance decided: known finding
+            else:
                 ctx.violation(f"diffcf-unvalidated:{cs['text']}:{cs['goal']}:{cs['param']}",
                               {"program_text": cs["text"], "goal": cs["goal"], "param": cs["param"], "point": cs["point"], "sens_diff": cs["R"]["sens"]},
                               f"differentiated closed forms of E({cs['goal']}) do not validate against the extended system at {cs['point']}, "
@@ -776,6 +780,8 @@ def run(ctx):
             ctx.coverage["discharged"] += 1
             continue
         if cs["bad"] is not None:
+            if not cs["bad_new"]:
+                ctx.coverage["discharged"] += 1  # instance decided: known finding
             continue  # already reported with a failing input
         broken = [nm for nm, val in zip(names, b) if not val]
         ctx.violation(f"sens-unvalidated:{'+'.join(broken)}:{cs['text']}:{cs['goal']}:{cs['param']}",
